@@ -30,8 +30,14 @@ WORK = os.path.join(VERIF, ".work") if not ALT else os.path.join(VERIF, ".work",
 GOENV = dict(os.environ, GOFLAGS="-mod=mod", GOPROXY="off", GOSUMDB="off", GOTOOLCHAIN="local",
              CGO_ENABLED=os.environ.get("CGO_ENABLED", "0"))
 
-FORBIDDEN = re.compile(r"\b(Admitted|admit|Axiom|Axioms|Parameter|Parameters|Conjecture|Abort All)\b|"
-                       r"Unset\s+Guard|bypass_check|type-in-type|impredicative-set|Admit Obligations")
+# vernacular that declares an axiom or switches a kernel check off: only when it starts a
+# sentence (so a constructor or identifier called Parameter does not trip the gate);
+# `admit`/`Admitted`/`give_up` anywhere
+FORBIDDEN = re.compile(r"(?:(?:^|[.]\s)\s*(?:Local\s+|Global\s+|Polymorphic\s+|#\[[^\]]*\]\s*)*"
+                       r"(Axiom|Axioms|Parameter|Parameters|Conjecture|Conjectures|Admit Obligations|"
+                       r"Variable|Variables|Hypothesis|Hypotheses)\b)|"
+                       r"\b(Admitted|admit|give_up)\b|Unset\s+Guard|Unset\s+Positivity|Unset\s+Universe|"
+                       r"bypass_check|type-in-type|impredicative-set", re.M)
 
 
 def log(*a):
@@ -81,23 +87,38 @@ def write_if_changed(path, content):
 # --------------------------------------------------------------------------- translators
 
 def regenerate():
-    """Run the translators against /repo; returns (ok, message). gen/*.v are rewritten only
-    when their content changes so that make re-checks exactly what moved."""
+    """Run the translators against /repo; returns (ok, message, failed_generators).
+    gen/*.v are rewritten only when their content changes so that make re-checks exactly
+    what moved.  The core translator (translator/main.go: tokens, grammar, printer tables)
+    and every extra generator (translator/<name>/main.go, its own main package taking
+    -repo and -out) run separately, so a generator that fails only affects the properties
+    that list it under "generators" in their propcfg."""
     tdir = os.path.join(VERIF, "translator")
     if not os.path.exists(os.path.join(tdir, "go.mod")):
-        return True, "no translator"
+        return True, "no translator", []
     if ALT:
-        return True, "alternate repository: generated tables are not refreshed"
+        return True, "alternate repository: generated tables are not refreshed", []
+    failed = []
+    msgs = []
     with Lock("gen"):
         run(["cp", os.path.join(REPO, "go.sum"), os.path.join(tdir, "go.sum")])
         out_dir = os.path.join(WORK, "gen_new")
         os.makedirs(out_dir, exist_ok=True)
-        rc, out = run(["go", "run", "-tags", "verif", ".", "-repo", REPO, "-out", out_dir], cwd=tdir, env=GOENV, timeout=600)
-        if rc != 0:
-            return False, "translator failed:\n" + out[-4000:]
+        for f in glob.glob(os.path.join(out_dir, "*.v")):
+            os.remove(f)
+        gens = [("core", ".")]
+        for d in sorted(glob.glob(os.path.join(tdir, "*", "main.go"))):
+            name = os.path.basename(os.path.dirname(d))
+            if name != "stage2":
+                gens.append((name, "./" + name))
+        for name, pkg in gens:
+            rc, out = run(["go", "run", "-tags", "verif", pkg, "-repo", REPO, "-out", out_dir], cwd=tdir, env=GOENV, timeout=600)
+            if rc != 0:
+                failed.append(name)
+                msgs.append("generator %s failed:\n%s" % (name, out[-2000:]))
         for f in sorted(glob.glob(os.path.join(out_dir, "*.v"))):
             write_if_changed(os.path.join(COQ, "gen", os.path.basename(f)), open(f).read())
-        return True, out
+    return "core" not in failed, "\n".join(msgs), failed
 
 
 # --------------------------------------------------------------------------- coq build
@@ -119,18 +140,65 @@ def ensure_makefile():
             raise RuntimeError("coq_makefile failed: " + out)
 
 
-def source_gate():
-    """No Admitted / admit / Axiom / Parameter / ... anywhere in the development."""
+def strip_comments(txt):
+    prev = None
+    while prev != txt:
+        prev = txt
+        txt = re.sub(r"\(\*(?:(?!\(\*|\*\)).)*\*\)", " ", txt, flags=re.S)
+    return txt
+
+
+def closure_files(targets):
+    """The .v files (relative to coq/) that the given .v files depend on, via coqdep."""
+    ensure_makefile()
+    rc, out = run(["coqdep", "-Q", ".", "Ecal"] + coq_files(), cwd=COQ, timeout=300)
+    deps = {}
+    for line in out.splitlines():
+        if ":" not in line:
+            continue
+        lhs, rhs = line.split(":", 1)
+        vos = [x for x in lhs.split() if x.endswith(".vo")]
+        if not vos:
+            continue
+        deps[vos[0][:-1]] = [x[:-1] for x in rhs.split() if x.endswith(".vo")]
+    seen = set()
+    todo = list(targets)
+    while todo:
+        f = todo.pop()
+        if f in seen:
+            continue
+        seen.add(f)
+        todo += deps.get(f, [])
+    return sorted(seen)
+
+
+def source_gate(files):
+    """No Admitted / admit / Axiom / Parameter / Variable outside a section / ... in the given
+    files.  (Variable/Hypothesis are allowed inside a Section.)"""
     bad = []
-    for f in coq_files():
-        txt = open(os.path.join(COQ, f)).read()
-        # strip comments (non-nested is enough for our sources; nested handled by loop)
-        prev = None
-        while prev != txt:
-            prev = txt
-            txt = re.sub(r"\(\*(?:(?!\(\*|\*\)).)*\*\)", " ", txt, flags=re.S)
-        for m in FORBIDDEN.finditer(txt):
-            bad.append("%s: %s" % (f, m.group(0)))
+    for f in files:
+        try:
+            txt = strip_comments(open(os.path.join(COQ, f)).read())
+        except OSError:
+            continue
+        # blank out section bodies for the Variable/Hypothesis test
+        depth = 0
+        outside = []
+        for sentence in re.split(r"(?<=[.])\s", txt):
+            st = sentence.strip()
+            if re.match(r"Section\s+\w+", st):
+                depth += 1
+            elif re.match(r"End\s+\w+", st) and depth > 0:
+                depth -= 1
+            outside.append((depth, st))
+        for depth, st in outside:
+            m = FORBIDDEN.search(st if st.endswith(".") else st + ".")
+            if not m:
+                continue
+            word = m.group(1) or m.group(2) or m.group(0)
+            if word in ("Variable", "Variables", "Hypothesis", "Hypotheses") and depth > 0:
+                continue
+            bad.append("%s: %s" % (f, word.strip()))
     return bad
 
 
@@ -311,13 +379,15 @@ def check(prop, tier, seed, cfg, replay=None):
     violations = []  # (key, desc, replay payload) concrete failing inputs
     notes = []
 
-    gate = source_gate()
+    gated = closure_files(["Props/%s.v" % prop, "Run/Run%s.v" % prop])
+    gate = source_gate(gated)
     if gate:
-        broken.append(("source-gate", "forbidden vernacular in the development: " + ", ".join(gate[:5])))
+        broken.append(("source-gate", "forbidden vernacular in the files this property depends on: " + ", ".join(gate[:5])))
 
-    ok, out = regenerate()
-    if not ok:
-        broken.append(("translator", out[-1500:]))
+    ok, out, failed_gens = regenerate()
+    for g in failed_gens:
+        if g == "core" or g in cfg.get("generators", []):
+            broken.append(("translator", "generator %s: %s" % (g, out[-1500:])))
 
     ok, out = build_target("Props/%s.vo" % prop)
     thms = theorems_of(prop)
@@ -413,6 +483,7 @@ def check(prop, tier, seed, cfg, replay=None):
                          "axioms reported by Print Assumptions: " + (", ".join(allax) if allax else "none (closed under the global context) for all of: " + ", ".join(thms))]
                         + cfg.get("trusted", []),
         "theorems": thms,
+        "gated_files": gated,
         "axioms_per_theorem": axioms,
         "obligation_note": "obligations = theorems of Props/%s.v + 1 correspondence obligation (model = implementation on every generated case)" % prop,
     }
